@@ -62,6 +62,9 @@ func (e *Encoder) callCommon(instr ssa.Instruction, cm *ssa.CallCommon, res ssa.
 		e.havocAll(st, "dynamic call "+cm.Value.Name())
 		v := e.freshVal("dcall", resT)
 		e.assumeWT(v, pc, st)
+		// contracts can name the result of the k-th dynamic call as $callk
+		e.params[fmt.Sprintf("$call%d", e.counts["$dyn"])] = v
+		e.counts["$dyn"]++
 		return v
 	}
 	if mc, ok := cm.Value.(*ssa.MakeClosure); ok {
